@@ -263,8 +263,10 @@ def main(argv=None):
         def key(t):
             return json.dumps({k: v for k, v in t.items() if k not in ('tier', 'est')}, sort_keys=True, default=str)
         qt = mod.tasks('quick', seed)
-        seen = {key(t) for t in qt}
-        rest = [t for t in tasks if key(t) not in seen]
+        seen = {key(dict(t, tier_='quick')) for t in qt}
+        # a thorough task is dropped only if it is the very same description *and* carries no tier-dependent behaviour
+        # (task descriptions record their tier, so in practice nothing is dropped: the quick tasks are repeated at thorough depth)
+        rest = [t for t in tasks if key(dict(t, tier_=t.get('tier'))) not in seen]
         if all('est' in t for t in rest):
             srt = sorted(rest, key=lambda t: t['est'])
             half = len(srt) // 2
